@@ -36,7 +36,7 @@ let op_of = function
   | "eq" -> OEq | "ne" -> ONe | "lt" -> OLt | "le" -> OLe | "gt" -> OGt | "ge" -> OGe
   | s -> failwith ("bad op " ^ s)
 
-let parse_rpn (toks : string list) : pred =
+let parse_rpn (toks : string list) =
   let rec go st toks = match toks with
     | [] -> (match st with [p] -> p | [] -> PTrue | _ -> failwith "bad rpn")
     | "true" :: r -> go (PTrue :: st) r
@@ -47,7 +47,7 @@ let parse_rpn (toks : string list) : pred =
     | _ -> failwith "bad rpn token" in
   go [] toks
 
-let parse_jrpn (toks : string list) : jpred =
+let parse_jrpn (toks : string list) =
   let rec go st toks = match toks with
     | [] -> (match st with [p] -> p | [] -> JTrue | _ -> failwith "bad jrpn")
     | "true" :: r -> go (JTrue :: st) r
